@@ -499,6 +499,8 @@ namespace bxdecay0 {
       set_decay_version(BXDECAY0_LIB_VERSION);
     }
     _grab_bb_params_().reset();
+    // A previous initialization attempt may have failed after selecting the gA generator:
+    _pimpl_->use_dbd_ga = false;
     if (_decay_category_ == DECAY_CATEGORY_DBD) {
 
       if ((_decay_dbd_mode_ == DBDMODE_2NUBB_GA_G0)
